@@ -35,6 +35,9 @@ CHECKS = {
  'C12': dict(technique='symbolic execution with write logging of every observer call (PhaseSpace observers, updateCSR, HDF5File appends, applyTo, getPastModulation) from LLVM IR, plus under-constrained path exploration of main()\'s loop from its real IR with all cadences symbolic; z3 decides the schedule arithmetic',
              text='bounded symbolic verification (first sentence of the statement): every observer call writes only observer state for all symbolic contents; integrate is idempotent; over all paths of <= 2 (3) loop iterations the state-changing events of an iteration are the canonical step with fixed receivers, renormalisation depends on the step number only, output on k % outstep; bit-identity of separate processes is not claimed',
              ref='4/C12'),
+ 'C13': dict(technique='symbolic execution of ProgramOptions::save from LLVM IR on snapshots taken after a native parse of five scenarios, with one symbol per effective option value, the output stream as a recorder, boost variables_map lookup over the snapshot\'s red-black tree and C++ exception unwinding; z3 decides term identity of every saved value',
+             text='bounded symbolic verification of the writer half: in every scenario (defaults, all options on the command line with three bunch currents, canonical and legacy keys in a parent config, alpha0 vs synchrotron frequency) the saved file has exactly one line per option with a getter whose value term is the bound variable, written with >= 9/17 digits, one line per bunch current, no legacy keys; the reader (boost) is trusted',
+             ref='4/C13, 9.6'),
  'C14': dict(technique='under-constrained symbolic execution of main()\'s loop and epilogue from its real LLVM IR (compiled -fno-inline) with every volatile read of the interrupt flag a fresh monotone boolean; event traces checked against the step grammar, z3 for path conditions',
              text='bounded symbolic verification: the handler only sets the flag; on every path of <= 2 (3) iterations an interrupt seen at any loop test lets the step in progress finish, runs no further step, appends exactly one final record of type All labelled with the step reached, prints Aborted. and returns 0; any other place where main reads the flag is explored with the flag set and must lead to the same ending',
              ref='4/C14'),
